@@ -78,3 +78,152 @@ package mpx
 //@   modifies mpx.channelHandler.*
 //@   modifies pools.*
 //@   resets[C18] h
+
+// ---- handshake and dispatch (C11): channel handlers run only on negotiated connections
+//
+// ghost(flagSet, c.handshaked) == 1 records that this call has set the handshaked flag. The
+// socket-facing helpers (connReader / connWriter: bufio, lz4, net.Conn) are assumed: they return
+// arbitrary lines, frames and statuses, which is exactly "whatever bytes a peer sends".
+
+//@ func (*connWriter).writeLine
+//@   trusted
+//@ func (*connWriter).writeAndFlush
+//@   trusted
+//@ func (*connWriter).initLZ4
+//@   trusted
+//@ func (*connReader).initLZ4
+//@   trusted
+//@ func (*connReader).readLine
+//@   trusted
+//@ func (*connReader).readMessage
+//@   trusted
+//@ func mpxError
+//@   trusted
+//@   ensures result.Code != "ok"
+
+//@ func (*connReader).readRequest
+//@   safety[C11]
+//@   requires r != nil
+//@   assert[C11] after req: code == 1 && st.Code == "ok"
+
+//@ func (*connReader).readResponse
+//@   safety[C11]
+//@   requires r != nil
+//@   assert[C11] after resp: code == 2 && st.Code == "ok"
+
+//@ func (*conn).handshakeAsServer
+//@   safety[C11]
+//@   requires c != nil && c.reader != nil && c.writer != nil && c.handshaked != nil
+//@   requires ghost(flagSet, c.handshaked) == 0
+//@   modifies ghost.flagSet
+//@   ensures[C11] (result.Code == "ok") <==> ghost(flagSet, c.handshaked) == 1
+//@   assert[C11] after req: line == "SpecMPX/1\n"
+//@   assert[C11] after comps: ok
+//@   loop 1 invariant 0 <= i
+//@   loop 2 invariant 0 <= i && ok
+
+//@ func (*conn).handshakeAsClient
+//@   safety[C11]
+//@   requires c != nil && c.reader != nil && c.writer != nil && c.handshaked != nil
+//@   requires ghost(flagSet, c.handshaked) == 0
+//@   modifies ghost.flagSet
+//@   ensures[C11] (result.Code == "ok") <==> ghost(flagSet, c.handshaked) == 1
+//@   assert[C11] after resp: line == "SpecMPX/1\n"
+//@   assert[C11] after comp: v == 10 && ok
+
+//@ func (*conn).handshake
+//@   safety[C11]
+//@   requires c != nil && c.reader != nil && c.writer != nil && c.handshaked != nil
+//@   requires ghost(flagSet, c.handshaked) == 0
+//@   modifies ghost.flagSet
+//@   ensures[C11] (result.Code == "ok") <==> ghost(flagSet, c.handshaked) == 1
+
+//@ func (*conn).free
+//@   trusted
+//@ func (*conn).close
+//@   trusted
+
+//@ func (*conn).run
+//@   safety[C11]
+//@   requires c != nil && c.reader != nil && c.writer != nil && c.handshaked != nil
+//@   requires ghost(flagSet, c.handshaked) == 0
+//@   modifies ghost.flagSet
+//@   assert[C11] after recv: ghost(flagSet, c.handshaked) == 1
+
+// The per-message receivers touch the channel map, pools and channel state (C07, C16 and C18 carry
+// their contracts); for the dispatch rule they are assumed to return an arbitrary status.
+//@ func (*conn).receiveOpen
+//@   trusted
+//@ func (*conn).receiveClose
+//@   trusted
+//@ func (*conn).receiveData
+//@   trusted
+//@ func (*conn).receiveWindow
+//@   trusted
+
+//@ func (*conn).receiveBatch
+//@   safety[C11]
+//@   requires c != nil
+//@   loop 1 invariant 0 <= i
+
+//@ func (*conn).receiveLoop
+//@   safety[C11]
+//@   requires c != nil && c.reader != nil
+//@   loop 1 invariant true
+
+//@ func (*conn).receiveMessage
+//@   safety[C11]
+//@   requires c != nil
+//@   let code = ghost(msgCode, obj(msg.msg.bytes))
+//@   ensures[C11] result.Code == "ok" ==> code == 3 || code == 10 || code == 11 || code == 12 || code == 13
+//@   ensures[C11] insideBatch && code == 3 ==> result.Code != "ok"
+
+//@ package github.com/basecomplextech/spec/proto/pmpx
+
+//@ func BuildConnectError
+//@   trusted
+//@ func BuildConnectResponse
+//@   trusted
+//@ func (Message).Code
+//@   trusted
+//@   ensures result == ghost(msgCode, obj(m.msg.bytes))
+//@ func (Message).ConnectRequest
+//@   trusted
+//@ func (Message).ConnectResponse
+//@   trusted
+//@ func (ConnectRequest).Versions
+//@   trusted
+//@ func (ConnectRequest).Compression
+//@   trusted
+//@ func (ConnectResponse).Ok
+//@   trusted
+//@ func (ConnectResponse).Error
+//@   trusted
+//@ func (ConnectResponse).Version
+//@   trusted
+//@ func (ConnectResponse).Compression
+//@   trusted
+//@ func NewConnectInput
+//@   trusted
+//@ func (ConnectInput).WithCompression
+//@   trusted
+//@ func (ConnectInput).Build
+//@   trusted
+//@ func (Message).Batch
+//@   trusted
+//@ func (Batch).List
+//@   trusted
+
+// generic list views of the root package (assumed here; their element decoders are verified under C02)
+//@ package github.com/basecomplextech/spec
+
+//@ func (ValueList).Len
+//@   trusted
+//@   ensures result >= 0
+//@ func (ValueList).Get
+//@   trusted
+//@ func (MessageList).Len
+//@   trusted
+//@   ensures result >= 0
+//@ func (MessageList).GetErr
+//@   trusted
